@@ -16,7 +16,7 @@ META = dict(
                "qucumber/nn_states/{positive_wavefunction,complex_wavefunction,density_matrix}.py: fit (argument forwarding)",
                "qucumber/callbacks/callback_list.py: CallbackList", "qucumber/callbacks/lambda_callback.py: LambdaCallback",
                "qucumber/callbacks/callback.py: CallbackBase", "qucumber/callbacks/timer.py: Timer"],
-    bounds=dict(quick="starting_epoch, epochs in 0..3 (incl. empty ranges); 1, 2 or 3 batches per epoch; stop injected at every event index -1..(all); 1-2 callbacks in both orders; Timer on/off; bare state + positive/complex/mixed fit overrides",
+    bounds=dict(quick="starting_epoch, epochs in 0..3 (incl. empty ranges); 1, 2 or 3 batches per epoch; stop injected at every event index -1..(all); 1-2 callbacks in both orders; Timer on/off; bare state + positive/complex/mixed fit overrides; negative batch size larger than the positive one",
                 thorough="starting_epoch, epochs in 0..4; up to 4 batches; three callbacks"),
     outside=["numerics of the batch update (stubbed: compute_batch_gradients returns zeros, recording optimizer)", "progress bar rendering (tqdm rebound to identity)"],
     stubs=["compute_batch_gradients -> zero gradients", "optimizer -> recording optimizer bumping a version counter", "tqdm -> identity"],
